@@ -99,7 +99,8 @@ pub fn check_batch(b: &TimeBatch, info: &mut CaseInfo) -> Result<(), String> {
 			.iter()
 			.enumerate()
 			.map(|(i, t)| RevokedSpec {
-				serial: Hex((i as u32 + 1).to_be_bytes().to_vec()),
+				// the last entry repeats the first one's serial (a hold followed by the final revocation)
+				serial: Hex((if i > 1 && i == b.times.len() - 1 { 1 } else { i as u32 + 1 }).to_be_bytes().to_vec()),
 				revocation_time: *t,
 				// entries carry reasons and invalidity dates (other instants of the batch, earlier or later)
 				reason: match i % 4 {
@@ -163,7 +164,7 @@ pub fn check_batch(b: &TimeBatch, info: &mut CaseInfo) -> Result<(), String> {
 				.iter()
 				.enumerate()
 				.map(|(i, t)| RevokedSpec {
-					serial: Hex((i as u32 + 1).to_be_bytes().to_vec()),
+					serial: Hex((if i > 1 && i == utc.len() - 1 { 1 } else { i as u32 + 1 }).to_be_bytes().to_vec()),
 					revocation_time: *t,
 					reason: match i % 4 {
 						0 => Some(ReasonSpec::KeyCompromise),
